@@ -129,8 +129,9 @@ CHECKS = {
         "units": [
             U("props/sys", "TestC11Names", (30000, 2), (500000, 4)),
             U("props/run", "TestC11Forks", (350, 10), (6000, 12)),
+            U("props/run", "TestStaleAttempt", (150, 6), (2500, 8)),
         ],
-        "floors": {"quick": {"names": 30000, "source:static-map": 800, "source:dynamic-map": 300, "source:dynamic-array": 300, "len:101": 30, "split-stage": 800}},
+        "floors": {"quick": {"names": 30000, "source:static-map": 800, "source:dynamic-map": 300, "source:dynamic-array": 300, "len:101": 30, "split-stage": 800, "fate:zombie-reported": 100}},
     },
     "C12": {
         "level": "exploration",
@@ -307,7 +308,7 @@ CHECKS = {
         "rule": "as C04; non-trivial: VDR enabled, >= 1 written entry removed and >= 1 file kept by a top-level output or retain; classes: mode, must-go-files, kept-and-removed.",
         "assumptions": _SEM_ASSUME + ["stages obey the contract: a returned path names a file the job wrote itself under its own files directory"],
         "units": [U("props/run", "TestRunFiles", (600, 10), (12000, 10), env={"VERIF_ONLY": "C14"})],
-        "floors": {"quick": {"must-go-files": 500, "kept-and-removed": 300, "mode:strict": 300, "mode:rolling": 300, "mode:post": 100}},
+        "floors": {"quick": {"must-go-files": 500, "kept-and-removed": 300, "failed-attempt-reset": 300, "mode:strict": 300, "mode:rolling": 300, "mode:post": 100}},
     },
     "C15": {
         "level": "exploration",
